@@ -142,13 +142,18 @@ end
 
 /-- default value and type reference of a variable definition (the children of the `VariableDefinition` node) -/
 def varDefBodyNodes (v : VarDef) : List Node :=
-  (match v.default with | some d => valueNodes d | none => []) ++ [.typeNode v.type]
+  (match v.default with | some d => valueNodes d | none => []) ++ .typeNode v.type :: dirsNodes v.dirs
 
 theorem varDefBodyK (h : CFK c Inv f g) (v : VarDef) (st : St) (hi : Inv st) :
     Post Inv f g (varDefBodyNodes v) st
-      (visitNode c (.typeNode v.type) id (match v.default with | some d => visitValue c d st | none => st)) := by
-  have key : ∀ st', Inv st' → Post Inv f g [.typeNode v.type] st' (visitNode c (.typeNode v.type) id st') :=
+      (visitDirectives c v.dirs
+        (visitNode c (.typeNode v.type) id (match v.default with | some d => visitValue c d st | none => st))) := by
+  have key0 : ∀ st', Inv st' → Post Inv f g [.typeNode v.type] st' (visitNode c (.typeNode v.type) id st') :=
     fun st' hi' => visitNodeK h _ id [] (fun _ hi => Post.nil hi) st' hi' rfl
+  have key : ∀ st', Inv st' → Post Inv f g (.typeNode v.type :: dirsNodes v.dirs) st'
+      (visitDirectives c v.dirs (visitNode c (.typeNode v.type) id st')) := fun st' hi' => by
+    have h1 := key0 st' hi'
+    exact h1.append (visitDirectivesK h v.dirs _ h1.1)
   unfold varDefBodyNodes
   cases hd : v.default with
   | none => simpa using key st hi
